@@ -61,6 +61,27 @@ type c02Rep struct {
 	// with a status time >= its current join time (the receiver fabricates leave = time+1)
 	leftListAfterJoin bool
 	prevLeaveMax  uint64 // highest LTime of any leave/force-leave about this member issued before its current incarnation joined
+	// ledger: per member this replica does NOT list, the newest intent it has been handed
+	// about that member since it started (what must decide the member's status when the
+	// failure detector reports it)
+	ledger map[string]*c02Best
+}
+
+// c02Best is the newest intent a replica received about a member it does not list.
+type c02Best struct {
+	leave bool
+	lt    uint64
+	tie   bool // an intent of the other type with the same LTime arrived later (either may win)
+}
+
+func (r *c02Rep) note(node string, leave bool, lt uint64) {
+	b, ok := r.ledger[node]
+	switch {
+	case !ok || lt > b.lt:
+		r.ledger[node] = &c02Best{leave: leave, lt: lt}
+	case lt == b.lt && leave != b.leave:
+		b.tie = true
+	}
 }
 
 type c02Info struct {
@@ -129,6 +150,7 @@ func (w *c02World) start(r *c02Rep) bool {
 	r.mlAlive = map[string]bool{}
 	r.pend = map[string][]string{}
 	r.learned = map[string]bool{r.name: true}
+	r.ledger = map[string]*c02Best{}
 	w.trk[nd] = newQTracker()
 	return true
 }
@@ -180,6 +202,37 @@ func (w *c02World) notify(r *c02Rep, x string) {
 		r.nd.NotifyJoin(w.fake(xr))
 		r.mlAlive[x] = true
 		r.learned[x] = true
+		if _, listed := before[x]; !listed {
+			// the member was not listed: the newest intent received about it decides
+			synctest.Wait()
+			a, ok := w.info(r)[x]
+			want, wantLT := serf.StatusAlive, uint64(0)
+			b := r.ledger[x]
+			if b != nil {
+				wantLT = b.lt
+				if b.leave {
+					want = serf.StatusLeaving
+				}
+			}
+			w.stats["unlisted_member_reported_up"]++
+			if b != nil {
+				w.stats["unlisted_member_reported_up_with_buffered_intent"]++
+			}
+			if ok && b != nil && b.tie {
+				if a.ltime != wantLT {
+					w.violate("buffered-intent-not-newest", fmt.Sprintf("%s: %s reported up while unlisted; newest intents received had LTime %d, status time is %d", r.name, x, wantLT, a.ltime))
+				}
+			} else if ok && (a.status != want || a.ltime != wantLT) {
+				kind := "join"
+				if b != nil && b.leave {
+					kind = "leave"
+				}
+				if b == nil {
+					kind = "no"
+				}
+				w.violate("buffered-intent-not-newest", fmt.Sprintf("%s: %s reported up while unlisted; the newest intent received about it was a %s intent with LTime %d, so it should be %v with status time %d, but it is %v with status time %d", r.name, x, kind, wantLT, want, wantLT, a.status, a.ltime))
+			}
+		}
 	} else {
 		r.nd.NotifyLeave(w.fake(xr))
 		delete(r.mlAlive, x)
@@ -234,6 +287,9 @@ func (w *c02World) deliver(r *c02Rep, msg []byte) {
 	}
 	fmt.Fprintf(&w.log, "%s<-%s(%s,%d) ", r.name, kind, node, lt)
 	b, known := before[node]
+	if !known && node != r.name {
+		r.note(node, kind == "leave", lt)
+	}
 	if known && lt <= b.ltime {
 		w.stats["stale_intents"]++
 		a, still := after[node]
@@ -263,6 +319,27 @@ func (w *c02World) pushPull(a, b *c02Rep, join bool) {
 				if x := w.byName(n); x != nil && x.running && pp.StatusLTimes[n]+1 >= x.joinLTime {
 					x.leftListAfterJoin = true
 					w.stats["left_list_entry_at_or_after_current_join"]++
+				}
+			}
+		}
+	}
+	for _, d := range []struct {
+		st   []byte
+		to   *c02Rep
+		list map[string]c02Info
+	}{{sa, b, bb}, {sb, a, ba}} {
+		var pp wire.MsgPushPull
+		if len(d.st) > 1 && wire.Decode(d.st[1:], &pp) == nil {
+			left := map[string]bool{}
+			for _, n := range pp.LeftMembers {
+				left[n] = true
+				if _, listed := d.list[n]; !listed && n != d.to.name {
+					d.to.note(n, true, pp.StatusLTimes[n]+1)
+				}
+			}
+			for n, lt := range pp.StatusLTimes {
+				if _, listed := d.list[n]; !listed && !left[n] && n != d.to.name {
+					d.to.note(n, false, lt)
 				}
 			}
 		}
